@@ -203,7 +203,20 @@ func (vc *VC) noteWrite(comp string, idx Term) {
 
 type writeSet struct {
 	whole bool
+	fresh bool // written on objects allocated after the point of interest only
 	idxs  []Term
+}
+
+func (vc *VC) noteWriteFresh(comp string) {
+	if vc.writes == nil {
+		return
+	}
+	w := vc.writes[comp]
+	if w == nil {
+		w = &writeSet{}
+		vc.writes[comp] = w
+	}
+	w.fresh = true
 }
 
 func sortedKeys[V any](m map[string]V) []string {
